@@ -1,2 +1,67 @@
-(** placeholder while the proofs are written *)
-From SV Require Import Model.Replication.
+(** C11 - a write acknowledged to the client is stored at its sequence on a quorum of the partition's replicas, carries a
+    quorum count on the coordinator, and is never replaced, rolled back or hidden by later history.
+
+    Same model and conventions as Props/C10.v.  [acked st c T s] = the reply Ok(first sequence s) for transaction T was
+    sent by coordinator c (transaction.rs:136-138, after set_confirmations_with_retry and the ConfirmTransaction sends). *)
+From Coq Require Import NArith List Bool.
+From SV Require Import Model.Replication Proofs.ReplLog Proofs.ReplExt Proofs.ReplInv Proofs.ReplSteps Proofs.ReplicationProofs.
+Import ListNotations.
+Open Scope N_scope.
+
+(* in every reachable state: an acknowledged T is on the coordinator's disk, whole, at s, with a quorum count; at least
+   q = rf/2+1 replicas of the partition store it whole, each of them at s *)
+Theorem C11_ack_quorum : forall cfg, c_cufix cfg = true -> N.of_nat (length (c_reps cfg)) <= c_rf cfg ->
+  forall acts c T s,
+  let st := g_run cfg acts in
+  acked st c T s ->
+  (exists e, In e (ns_log (g_nodes st c)) /\ en_tx e = T /\ en_off e = 0 /\ en_first e = s /\ c_q cfg <= en_cnt e) /\
+  c_q cfg <= N.of_nat (length (holders cfg st T)) /\
+  (forall m, In m (holders cfg st T) ->
+     In m (c_reps cfg) /\ exists e, In e (ns_log (g_nodes st m)) /\ en_tx e = T /\ en_off e = 0 /\ en_first e = s).
+Proof. exact ack_quorum. Qed.
+
+(* ... and it stays so whatever happens later (any further actions: other coordinators, crashes, catch-ups, ...):
+   never replaced, never rolled back, the quorum count never lost *)
+Theorem C11_ack_persists : forall cfg, c_cufix cfg = true -> N.of_nat (length (c_reps cfg)) <= c_rf cfg ->
+  forall acts acts' c T s,
+  acked (g_run cfg acts) c T s ->
+  let st := g_run cfg (acts ++ acts') in
+  (exists e, In e (ns_log (g_nodes st c)) /\ en_tx e = T /\ en_off e = 0 /\ en_first e = s /\ c_q cfg <= en_cnt e) /\
+  c_q cfg <= N.of_nat (length (holders cfg st T)) /\
+  (forall m, In m (holders cfg st T) ->
+     In m (c_reps cfg) /\ exists e, In e (ns_log (g_nodes st m)) /\ en_tx e = T /\ en_off e = 0 /\ en_first e = s).
+Proof. exact ack_persists. Qed.
+
+(* not hidden: reads hide only sequences at or above the watermark (C07), and on every node that stores the acknowledged
+   write with a quorum count the watermark the disk justifies passes it as soon as everything before it on that node is
+   confirmed *)
+Theorem C11_ack_visible : forall cfg, c_cufix cfg = true -> N.of_nat (length (c_reps cfg)) <= c_rf cfg ->
+  forall acts c T s n e,
+  let st := g_run cfg acts in
+  acked st c T s -> In e (ns_log (g_nodes st n)) -> en_tx e = T -> en_off e = 0 -> c_q cfg <= en_cnt e ->
+  (forall e', In e' (ns_log (g_nodes st n)) -> en_first e' < s -> c_q cfg <= en_cnt e') ->
+  forall x, covers e x = true -> x < wm_ideal (c_q cfg) (ns_log (g_nodes st n)).
+Proof. exact ack_visible. Qed.
+
+(* the per-node reading of "never hidden" does NOT hold (DESIGN: C11_not_hidden_partial): a node whose own coordinator
+   attempt failed keeps that unconfirmed append for ever (transaction.rs never rolls it back), so its watermark stays
+   below it; here node 0 holds the acknowledged transaction 30 at sequence 1 with count 3 while its watermark is 0, and
+   the coordinator (node 1) shows it (watermark 2).  Replayed on the real code: corpus/C11/hidden_on_node.case (an
+   observation in the evidence, not a violation: the write is visible on the quorum). *)
+Theorem C11_hidden_on_node_refuted :
+  exists acts,
+    let cfg := mk_cfg 3 [0;1;2] 4 true in
+    let st := g_run cfg acts in
+    acked st 1 30 1 /\
+    In (mk_ent 30 1 1 0 3) (ns_log (g_nodes st 0)) /\ wm_ideal (c_q cfg) (ns_log (g_nodes st 0)) = 0 /\
+    In (mk_ent 30 1 1 0 2) (ns_log (g_nodes st 1)) /\ wm_ideal (c_q cfg) (ns_log (g_nodes st 1)) = 2.
+Proof. exact hidden_on_node_refuted. Qed.
+
+(* non-vacuity: an acknowledgement is reachable with rf = 3 *)
+Example C11_ack_reachable : exists acts c T s, acked (g_run (mk_cfg 3 [0;1;2] 4 true) acts) c T s.
+Proof. exists w_acts_hidden, 1, 30, 1. exact (proj1 hidden_witness). Qed.
+
+Print Assumptions C11_ack_quorum.
+Print Assumptions C11_ack_persists.
+Print Assumptions C11_ack_visible.
+Print Assumptions C11_hidden_on_node_refuted.
